@@ -461,3 +461,113 @@ func (p *parser) primary() Expr {
 	p.fail("unexpected %q", t.s)
 	return nil
 }
+
+// substExpr replaces free identifiers by expressions (no capture handling beyond skipping bound names).
+func substExpr(e Expr, m map[string]Expr) Expr {
+	switch x := e.(type) {
+	case *EIdent:
+		if r, ok := m[x.Name]; ok {
+			return r
+		}
+		return x
+	case *EUnary:
+		return &EUnary{x.Op, substExpr(x.X, m)}
+	case *EBinary:
+		return &EBinary{x.Op, substExpr(x.X, m), substExpr(x.Y, m)}
+	case *ECond:
+		return &ECond{substExpr(x.C, m), substExpr(x.A, m), substExpr(x.B, m)}
+	case *ECall:
+		n := &ECall{Fn: x.Fn}
+		for _, a := range x.Args {
+			n.Args = append(n.Args, substExpr(a, m))
+		}
+		return n
+	case *EMethod:
+		n := &EMethod{X: substExpr(x.X, m), Name: x.Name}
+		for _, a := range x.Args {
+			n.Args = append(n.Args, substExpr(a, m))
+		}
+		return n
+	case *EField:
+		return &EField{substExpr(x.X, m), x.Name}
+	case *EIndex:
+		return &EIndex{substExpr(x.X, m), substExpr(x.I, m)}
+	case *EOld:
+		return &EOld{substExpr(x.X, m)}
+	case *ELet:
+		m2 := map[string]Expr{}
+		for k, v := range m {
+			if k != x.Name {
+				m2[k] = v
+			}
+		}
+		return &ELet{x.Name, substExpr(x.V, m), substExpr(x.B, m2)}
+	case *EQuant:
+		m2 := map[string]Expr{}
+		for k, v := range m {
+			m2[k] = v
+		}
+		for _, v := range x.Vars {
+			delete(m2, v.Name)
+		}
+		n := &EQuant{Forall: x.Forall, Vars: x.Vars, Body: substExpr(x.Body, m2)}
+		for _, p := range x.Pats {
+			var np []Expr
+			for _, pe := range p {
+				np = append(np, substExpr(pe, m2))
+			}
+			n.Pats = append(n.Pats, np)
+		}
+		return n
+	}
+	return e
+}
+
+// splitConj splits an expression into top-level conjuncts, looking through non-recursive spec functions
+// whose arguments are plain identifiers/field paths (so substitution is capture-free).
+func splitConjPkg(e Expr, cs *Contracts, pkg string) []Expr {
+	curSplitPkg = pkg
+	return splitConj(e, cs, 0)
+}
+
+var curSplitPkg string
+
+func splitConj(e Expr, cs *Contracts, depth int) []Expr {
+	switch x := e.(type) {
+	case *EBinary:
+		if x.Op == "&&" {
+			return append(splitConj(x.X, cs, depth), splitConj(x.Y, cs, depth)...)
+		}
+	case *ECall:
+		if sf, ok := cs.Specs[x.Fn]; ok && depth < 4 && len(sf.Params) == len(x.Args) && sf.PkgPath == curSplitPkg {
+			if _, isConj := sf.Body.(*EBinary); isConj && sf.Body.(*EBinary).Op == "&&" {
+				m := map[string]Expr{}
+				simple := true
+				for i, p := range sf.Params {
+					if !simpleArg(x.Args[i]) {
+						simple = false
+					}
+					m[p.Name] = x.Args[i]
+				}
+				if simple {
+					var out []Expr
+					for _, c := range splitConj(sf.Body, cs, depth+1) {
+						out = append(out, substExpr(c, m))
+					}
+					return out
+				}
+			}
+		}
+	}
+	return []Expr{e}
+}
+
+func simpleArg(e Expr) bool {
+	switch x := e.(type) {
+	case *EIdent, *EInt, *EStr, *EBool, *ENil:
+		return true
+	case *EField:
+		return simpleArg(x.X)
+	}
+	return false
+}
